@@ -15,7 +15,8 @@ TAdd == Step("add") /\ Ev.ok /\ Add(Ev.id, Ev.toks)
 TRemove == Step("remove") /\ Ev.ok /\ Remove(Ev.id)
 TFlush == Step("flush") /\ Flush
 TSave == Step("save") /\ Ev.ok /\ Ev.nw = Ev.len /\ Flush
-TReload == Step("reload") /\ Ev.ok /\ Ev.nw = Ev.len /\ Ev.nr = Ev.len /\ Ev.rest = Ev.trailer /\ Reload
+\* the reloaded index answers the probe queries (text and node-id) exactly as its source
+TReload == Step("reload") /\ Ev.ok /\ Ev.nw = Ev.len /\ Ev.nr = Ev.len /\ Ev.rest = Ev.trailer /\ Ev.qa = Ev.qb /\ Reload
 \* exported running statistics equal the specification's counters (df for every token of the vocabulary)
 TStats == /\ Step("stats") /\ UNCHANGED bvars
           /\ Ev.numDocs = numDocs /\ Ev.totalTokens = totalTokens
@@ -24,8 +25,12 @@ TStats == /\ Step("stats") /\ UNCHANGED bvars
           \* average length as the scorer uses it: totalTokens / numDocs at 10^-6
           /\ (numDocs > 0 => Abs(Ev.avg6 - Div6(totalTokens, numDocs)) <= 2)
           /\ (numDocs = 0 => Ev.avg6 = 0)
-TSearch == /\ Step("search") /\ Ev.ok /\ UNCHANGED bvars
-           /\ LET filt == AsSet(Ev.filt)  qs == Ev.qs IN
+\* a node-id query stands for the text of that document (Ev.nqs: its tokens joined by single spaces and tokenised again,
+\* computed by the harness from its own record); naming an unknown or removed document is an error
+TSearch == /\ Step("search") /\ UNCHANGED bvars
+           /\ Ev.ok = (\A i \in DOMAIN Ev.nodes : Ev.nodes[i] \in LiveDocs)
+           /\ Ev.ok =>
+              LET filt == AsSet(Ev.filt)  qs == Ev.qs \o Ev.nqs IN
               Holds(IF numDocs = 0 THEN Ev.res = <<>>
                     ELSE IF Len(qs) = 1 THEN ValidResult(Ev.res, qs[1], Ev.k, filt)
                     ELSE MultiValid(Ev.res, qs, Ev.k, filt, Ev.agg))
